@@ -7,7 +7,7 @@ From PahoV Require Import Base.Prelude Link.Conn Link.ConnCheck Link.ConnInv.
 
 (* ---------------------------------------------------------------- hypotheses on operations *)
 Definition is_nil {A} (l : list A) : bool := match l with [] => true | _ => false end.
-Definition is_pubsub (a : acall) : bool := match a with APublish0 | ASubscribe => true | _ => false end.
+
 Definition is_ofail (o : outcome) : bool := match o with OFail => true | _ => false end.
 
 (* D (F-C10d): on_socket_open makes no API call (anything it queues precedes CONNECT) *)
@@ -38,38 +38,49 @@ Definition accepting (t : topcall) : bool :=
 Definition excl_E (s : st) (o : op) : bool := negb (accepting (o_call o) && disc_state s).
 
 Definition c10_hyp (c : cfg) (s : st) (o : op) : bool :=
-  op_wf c o && excl_D o && excl_G o && excl_R o && excl_C s o && excl_F c o && excl_E s o.
+  excl_D o && excl_G o && excl_R o && excl_C s o && excl_F c o && excl_E s o.
 Definition c10_ops_ok (c : cfg) (ops : list op) : bool := hyp_from c (c10_hyp c) (init c) ops.
 
 (* ---------------------------------------------------------------- C10 *)
 Definition C10_connected_full : Prop := forall c ops,
-  cfg_ok c = true -> ops_wf c ops = true -> c10_connected_ok (optrace c ops) = true.
+  cfg_ok c = true -> c10_connected_ok (optrace c ops) = true.
 Definition C10_connected_partial : Prop := forall c ops,
   cfg_ok c = true -> c10_ops_ok c ops = true -> c10_connected_x_ok (optrace c ops) = true.
 
 Definition C10_one_disconnect_full : Prop := forall c ops,
-  cfg_ok c = true -> ops_wf c ops = true -> c10_one_disconnect_ok (optrace c ops) = true.
+  cfg_ok c = true -> c10_one_disconnect_ok (optrace c ops) = true.
 Definition C10_one_disconnect_partial : Prop := forall c ops,
   cfg_ok c = true -> c10_ops_ok c ops = true -> c10_one_disconnect_ok (optrace c ops) = true.
 
 Definition C10_wire_full : Prop := forall c ops,
-  cfg_ok c = true -> ops_wf c ops = true -> c10_wire_ok (optrace c ops) = true.
+  cfg_ok c = true -> c10_wire_ok (optrace c ops) = true.
 Definition C10_wire_partial : Prop := forall c ops,
   cfg_ok c = true -> c10_ops_ok c ops = true -> c10_wire_ok (optrace c ops) = true.
 
 (* ---------------------------------------------------------------- C16: socket callbacks installed *)
-Definition C16_open_close_stmt : Prop := forall c ops,
-  c_sockcb c = true -> ops_wf c ops = true -> c16_open_close_ok (optrace c ops) = true.
-Definition C16_reg_nested_stmt : Prop := forall c ops,
-  c_sockcb c = true -> ops_wf c ops = true -> c16_reg_nested_ok (optrace c ops) = true.
+(* T (F-C16a): on_socket_close / on_socket_unregister_write do not call reconnect() (a socket opened
+   from inside the teardown of the previous one is announced before that one's on_socket_close, or leaks) *)
+Definition excl_T (o : op) : bool :=
+  queue_noreconn (q_close (o_scr o)) && queue_noreconn (q_unregw (o_scr o)).
+Definition c16_ops_ok (ops : list op) : bool := forallb excl_T ops.
+
+Definition C16_open_close_full : Prop := forall c ops,
+  c_sockcb c = true -> c16_open_close_ok (optrace c ops) = true.
+Definition C16_open_close_partial : Prop := forall c ops,
+  c_sockcb c = true -> c16_ops_ok ops = true -> c16_open_close_ok (optrace c ops) = true.
+Definition C16_reg_nested_full : Prop := forall c ops,
+  c_sockcb c = true -> c16_reg_nested_ok (optrace c ops) = true.
+Definition C16_reg_nested_partial : Prop := forall c ops,
+  c_sockcb c = true -> c16_ops_ok ops = true -> c16_reg_nested_ok (optrace c ops) = true.
 (* the external-loop reading (register-write callbacks installed); in direct-write mode the clause is
    exercised by the correspondence run only *)
-Definition C16_no_lost_wakeup_stmt : Prop := forall c ops,
-  c_sockcb c = true -> c_ext c = true -> ops_wf c ops = true -> c16_no_lost_wakeup_ok c (optrace c ops) = true.
+Definition C16_no_lost_wakeup_full : Prop := forall c ops,
+  c_sockcb c = true -> c_ext c = true -> c16_no_lost_wakeup_ok c (optrace c ops) = true.
+Definition C16_no_lost_wakeup_partial : Prop := forall c ops,
+  c_sockcb c = true -> c_ext c = true -> c16_ops_ok ops = true -> c16_no_lost_wakeup_ok c (optrace c ops) = true.
 
 (* ---------------------------------------------------------------- model sanity *)
 (* the two fuels of the model (nesting depth, _packet_write iterations) are never exhausted *)
 Definition Conn_no_fuel_stmt : Prop := forall c ops, no_fuel_ok (optrace c ops) = true.
-(* the excluded self-deadlocks are the only ones *)
-Definition Conn_no_deadlock_stmt : Prop := forall c ops,
-  ops_wf c ops = true -> no_deadlock_ok (optrace c ops) = true.
+(* no call made from inside a callback can self-deadlock on _in_callback_mutex *)
+Definition Conn_no_deadlock_stmt : Prop := forall c ops, no_deadlock_ok (optrace c ops) = true.
